@@ -489,7 +489,8 @@ pub fn gen_random(r: &mut Rng, n: usize) -> History {
                 recent.remove(0);
             }
         }
-        match r.below(24) {
+        let k = r.below(24);
+        match k {
             20 => {
                 // exactly the same input as one of the last few conversions
                 if !recent.is_empty() {
@@ -525,8 +526,19 @@ pub fn gen_random(r: &mut Rng, n: usize) -> History {
                 ops.push(Op::Convert(*r.pick(&[10.0f32, 9.999_999, 9.9999, 9.9917, 9.95, 10.0001])));
             }
             // (note arguments stay in 0..=11 here: how larger values are clamped is C20's subject, not C07/C09/C19's)
-            0 => ops.push(Op::Forbid((0..r.below(5)).map(|_| r.below(12) as u8).collect())),
-            1 => ops.push(Op::Allow((0..r.below(5)).map(|_| r.below(12) as u8).collect())),
+            0 | 1 => {
+                let list: Vec<u8> = if r.chance(0.2) {
+                    // a long argument (13..50 entries): a few notes repeated many times, one more named only late
+                    let pool: Vec<u8> = (0..1 + r.below(3)).map(|_| r.below(12) as u8).collect();
+                    let mut l: Vec<u8> = (0..13 + r.below(38)).map(|_| *r.pick(&pool)).collect();
+                    let late = 12 + r.usize_below(l.len() - 12);
+                    l[late] = r.below(12) as u8;
+                    l
+                } else {
+                    (0..r.below(5)).map(|_| r.below(12) as u8).collect()
+                };
+                ops.push(if k == 0 { Op::Forbid(list) } else { Op::Allow(list) });
+            }
             2 => {
                 // forbid everything in a random order (the last one survives)
                 let mut all: Vec<u8> = (0..12).collect();
